@@ -358,6 +358,8 @@ func extractTagTokensFromComment(tok parser.Token) []semanticToken {
 
 	parts := strings.Split(commentText, ",")
 	searchStart := 0
+	// columns count UTF-16 units: u16Pos is the UTF-16 length of commentText[:searchStart], advanced piece by piece
+	u16Pos := uint32(0)
 
 	for _, part := range parts {
 		trimmed := strings.TrimSpace(part)
@@ -376,19 +378,21 @@ func extractTagTokensFromComment(tok parser.Token) []semanticToken {
 		if tagStart == -1 {
 			continue
 		}
+		startCol := u16Pos + uint32(lsputil.UTF16Len(commentText[searchStart:searchStart+tagStart]))
 		tagStart += searchStart
 
 		// Tag name with colon: "name:"
-		tagNameWithColonLen := uint32(len(name) + 1)
+		tagNameWithColonLen := uint32(lsputil.UTF16Len(name)) + 1
 
 		// +1 to baseCol accounts for the semicolon that starts the comment
 		tokens = append(tokens, semanticToken{
 			line:      baseLine,
-			col:       baseCol + 1 + uint32(tagStart),
+			col:       baseCol + 1 + startCol,
 			length:    tagNameWithColonLen,
 			tokenType: TokenTypeTag,
 			modifiers: 0,
 		})
+		endCol := startCol + tagNameWithColonLen
 
 		// Tag value (if present)
 		if colonIdx+1 < len(trimmed) {
@@ -398,20 +402,24 @@ func extractTagTokensFromComment(tok parser.Token) []semanticToken {
 				tagNameEnd := tagStart + len(name) + 1
 				valueStart := strings.Index(commentText[tagNameEnd:], value)
 				if valueStart != -1 {
+					valueCol := endCol + uint32(lsputil.UTF16Len(commentText[tagNameEnd:tagNameEnd+valueStart]))
+					valueLen := uint32(lsputil.UTF16Len(value))
 					tokens = append(tokens, semanticToken{
 						line:      baseLine,
-						col:       baseCol + 1 + uint32(tagNameEnd+valueStart),
-						length:    uint32(len(value)),
+						col:       baseCol + 1 + valueCol,
+						length:    valueLen,
 						tokenType: TokenTypeTagValue,
 						modifiers: 0,
 					})
 					searchStart = tagNameEnd + valueStart + len(value)
+					u16Pos = valueCol + valueLen
 					continue
 				}
 			}
 		}
 
 		searchStart = tagStart + len(name) + 1
+		u16Pos = endCol
 	}
 
 	// If no valid tags found, return nil (comment will be handled normally)
